@@ -54,7 +54,7 @@ def eprint(*a):
 
 # ------------------------------------------------------------------------------------ workers
 def _chunk(args):
-    prop, verif_seed, start, count, banned = args
+    prop, verif_seed, start, count, banned, tier = args
     faulthandler.enable()
     faulthandler.dump_traceback_later(600, exit=False)
     from .run import run_one
@@ -69,7 +69,7 @@ def _chunk(args):
     samples = []
     cfg = collections.Counter()
     for i in range(start, start + count):
-        r = run_one(prop, verif_seed, i, banned=banned)
+        r = run_one(prop, verif_seed, i, banned=banned, tier=tier)
         steps += r.steps
         stats.update(r.stats)
         digests.update(r.digest.encode())
@@ -82,7 +82,7 @@ def _chunk(args):
             sigs.add(int(r.signature, 16))
             if len(samples) < 2 and start == 0:
                 from .run import run_one as _r
-                samples.append({'run_index': i, 'ops': _r(prop, verif_seed, i, keep_ops=True, banned=banned).ops})
+                samples.append({'run_index': i, 'ops': _r(prop, verif_seed, i, keep_ops=True, banned=banned, tier=tier).ops})
         states |= r.states
         tris |= r.trigrams
         if r.violation is not None and len(viols) < 8:
@@ -93,8 +93,8 @@ def _chunk(args):
             'nontrivial': nontrivial, 'samples': samples, 'cfg': dict(cfg)}
 
 
-def run_batch(prop, verif_seed, runs, workers, cap, banned=(), start=0):
-    tasks = [(prop, verif_seed, s, min(CHUNK, start + runs - s), tuple(banned))
+def run_batch(prop, verif_seed, runs, workers, cap, banned=(), start=0, tier='quick'):
+    tasks = [(prop, verif_seed, s, min(CHUNK, start + runs - s), tuple(banned), tier)
              for s in range(start, start + runs, CHUNK)]
     ctx = multiprocessing.get_context('fork')
     out = []
@@ -245,7 +245,7 @@ def check(prop, tier, args):
 
     # 3. the seeded search
     banned = set()
-    chunks = run_batch(prop, verif_seed, conf['runs'], workers, conf['cap'])
+    chunks = run_batch(prop, verif_seed, conf['runs'], workers, conf['cap'], tier=tier)
     agg = aggregate(chunks)
     reported = {}
     extra_batches = 0
@@ -295,7 +295,7 @@ def check(prop, tier, args):
         idx = sorted(set(x['i'] for x in agg['viols']))
         from .run import run_one
         for i in idx[:2000]:
-            r = run_one(prop, verif_seed, i, keep_ops=True, banned=tuple(sorted(banned)))
+            r = run_one(prop, verif_seed, i, keep_ops=True, banned=tuple(sorted(banned)), tier=tier)
             extra_batches += 1
             if r.violation is not None and match_known(r.violation, known, 'known') is None:
                 small, v, dg, execs = minimise(prop, r.ops, r.violation)
@@ -417,6 +417,9 @@ def write_evidence(prop, tier, verif_seed, conf, workers, agg, det, wall, n_viol
     }
     os.makedirs(os.path.join(OUT, 'evidence'), exist_ok=True)
     with open(os.path.join(OUT, 'evidence', prop + '.json'), 'w') as f:
+        json.dump(ev, f, indent=1, default=repr)
+    # a per-tier copy, so that a later quick run does not erase the record of a thorough one
+    with open(os.path.join(OUT, 'evidence', '%s.%s.json' % (prop, tier)), 'w') as f:
         json.dump(ev, f, indent=1, default=repr)
 
 
